@@ -17,6 +17,7 @@ fatfs functions no longer see it as a function of its own."""
 import copy
 import json
 import os
+import re
 
 VERIF = os.path.dirname(os.path.dirname(os.path.abspath(__file__)))
 KNOWN = os.path.join(VERIF, 'tables', 'known_functions.json')
@@ -125,6 +126,93 @@ def _operand_form(facts):
     return 'm'
 
 
+def _render_ty(types, ix, depth=0):
+    t = types[ix]
+    if t is None or depth > 4:
+        return '?'
+    if t.get('k') == 'adt':
+        args = [a for a in (t.get('args') or [])]
+        return t.get('path', '?') + ('<%s>' % ', '.join(_render_ty(types, a, depth + 1) for a in args) if args else '')
+    return t.get('s') or '?'
+
+
+def devirtualise(facts):
+    """Provided methods of a crate trait (`trait FatTrait { fn get(..) { Self::decode(Self::get_raw(..)?) } }`) are generic in
+    `Self`; every rule about `Fat32::get` wants the FAT32 body. For each implementing type that does not override the method a
+    copy named `<T as Trait>::m` is made in which `Trait::x` calls are resolved to `<T as Trait>::x`; call sites elsewhere that
+    name the trait method with a concrete `Self` are resolved the same way, and the monomorphic instances are renamed."""
+    from model import Fn
+    impls = {}
+    for n, f in facts.fns.items():
+        if f.crate == 'fatfs' and f.impl_trait and not f.impl_trait.startswith('default:') and f.self_ty and \
+                f.impl_trait.startswith('fatfs::'):
+            impls.setdefault(f.impl_trait, {}).setdefault(f.self_ty, {})[n.rsplit('::', 1)[-1]] = n
+    known = load_known() or set()
+    # only provided methods the pinned tree does not have (`Write::write_all`, `Read::read_exact` keep their generic form:
+    # the rules about them are written for it)
+    provided = [f for f in facts.fns.values() if f.crate == 'fatfs' and (f.impl_trait or '').startswith('default:fatfs::') and
+                f.name not in known]
+    made = {}
+    for P in provided:
+        trait = P.impl_trait[len('default:'):]
+        m = P.name.rsplit('::', 1)[-1]
+        for T, methods in impls.get(trait, {}).items():
+            new = '<%s as %s>::%s' % (T, trait, m)
+            if new in facts.fns:
+                continue
+            d = copy.deepcopy(P.d)
+            d['impl_trait'] = trait
+            d['self_ty'] = T
+            nf = Fn(new, d, P.types, P.adts, P.source)
+            nf.facts_ref = facts
+            nf.synth_from = P.name
+            facts.fns[new] = nf
+            methods[m] = new
+            made.setdefault(P.name, {})[T] = new
+    if not made:
+        facts.devirtualised = 0
+        return
+    n = 0
+    for fn in list(facts.fns.values()):
+        if fn.crate != 'fatfs':
+            continue
+        for B in fn.blocks:
+            t = B['term']
+            if t['k'] != 'call':
+                continue
+            c = t.get('callee') or ''
+            trait = c.rsplit('::', 1)[0]
+            if trait not in impls:
+                continue
+            T = None
+            ga = t.get('gargs') or []
+            if ga:
+                g0 = fn.types[ga[0]]
+                if (g0 or {}).get('s') == 'Self' or (g0 or {}).get('k') == 'param':
+                    T = fn.self_ty if getattr(fn, 'synth_from', None) else None
+                else:
+                    T = _render_ty(fn.types, ga[0])
+            tgt = impls[trait].get(T, {}).get(c.rsplit('::', 1)[-1]) if T else None
+            if tgt:
+                t['callee'] = tgt
+                n += 1
+    for i in facts.instances:
+        mp = made.get(i['fn'])
+        if not mp:
+            continue
+        a = i['args'].lstrip('[')
+        for T, new in mp.items():
+            if a.startswith(T + ',') or a.startswith(T + ']'):
+                facts.insts_of[i['fn']] = [x for x in facts.insts_of.get(i['fn'], []) if x != i['id']]
+                i['fn'] = new
+                facts.insts_of[new].append(i['id'])
+                break
+    for pname in made:
+        # the generic original is judged through its copies
+        facts.fns[pname].crate = 'fatfs-inlined'
+    facts.devirtualised = n
+
+
 def normalise(facts):
     known = load_known()
     facts.inlined = {}
@@ -132,7 +220,12 @@ def normalise(facts):
         return
     for _ in range(MAX_ROUNDS):
         fat = {n: f for n, f in facts.fns.items() if f.crate == 'fatfs'}
-        unknown = {n for n, f in fat.items() if n not in known and not f.is_closure and f.impl_trait is None and
+        known_trait_methods = {(m_.group(1), k_.rsplit('::', 1)[-1]) for k_ in known
+                               for m_ in [re.match(r'^<.+ as (.+)>::[^:]+$', k_)] if m_}
+        unknown = {n for n, f in fat.items() if n not in known and not f.is_closure and
+                   (f.impl_trait is None or (f.impl_trait.startswith('fatfs::') and
+                                             (f.impl_trait, n.rsplit('::', 1)[-1]) not in known_trait_methods and
+                                             not getattr(f, 'synth_from', None))) and
                    not f.pub and '{closure' not in n and len(f.blocks) <= MAX_BLOCKS}
         if not unknown:
             return
@@ -526,7 +619,7 @@ def direct_closure_calls(facts, known):
                     continue
                 cdef = _closure_behind(fn, t['args'][0])
                 cf = facts.fns.get(cdef) if cdef else None
-                if cf is None or cdef in known or cf.crate != 'fatfs' or len(cf.blocks) > MAX_BLOCKS:
+                if cf is None or cf.crate != 'fatfs' or len(cf.blocks) > MAX_BLOCKS:
                     continue
                 tup = t['args'][1].get('m') or t['args'][1].get('c')
                 if tup is None or tup['p']:
